@@ -211,10 +211,12 @@ def rule_dtypes(prog: Program, col: Collector) -> None:
             if e.name == "astype" and e.args:
                 cands.append(e.args[0])
             for c in cands:
-                if isinstance(c, tuple) and (is_global(c, *NARROW) or (c[0] == "const" and c[1] in ("int8", "uint8", "int16", "uint16", "float16", "i1", "u1", "i2", "u2"))):
+                if isinstance(c, tuple) and (is_global(c, *NARROW) or (c[0] == "const" and c[1] in ("int8", "uint8", "int16", "uint16", "float16", "i1", "u1", "i2", "u2"))
+                                             or is_call_to(c, "numpy.min_scalar_type", "numpy.result_type", "numpy.promote_types")):
                     bad += 1
                     col.violation(ref.where(e.node), ref.short, f"narrow-dtype:{show(c)}", f"narrow dtype {show(c)} in {short(e.term, 60)}",
-                                  "ids, player numbers and their powers of two overflow 8/16-bit integers silently (2**7 wraps in int8): tables become wrong from a certain size on")
+                                  "ids, player numbers and their powers of two overflow 8/16-bit integers silently (2**7 wraps in int8): tables become wrong from a certain size on; a `narrowest type that fits` "
+                                  "(np.min_scalar_type) is unsigned and 8 or 16 bits wide for every offered player count: mixing with a Python-int id or a negative mask raises OverflowError")
         # a buffer filled with an INTEGER literal (np.full(k, 0), np.zeros(k, dtype=int)) that later receives values read from a game
         def int_buffer(t) -> bool:
             if is_call_to(t, "numpy.full") and len(t[2]) >= 2 and "dtype" not in dict(t[3]):
